@@ -774,7 +774,34 @@ fn api_built_packet(t: &mut Tape) -> Result<(Packet, String), String> {
     let e = |e: pgp::errors::Error| e.to_string();
     let sig_types = [SignatureType::Binary, SignatureType::Text, SignatureType::Standalone, SignatureType::CertGeneric, SignatureType::SubkeyBinding, SignatureType::Timestamp];
     let pv = if t.chance(40) { PacketHeaderVersion::Old } else { PacketHeaderVersion::New };
-    Ok(match t.below(12) {
+    Ok(match t.below(13) {
+        12 => {
+            // a v6 SKESK assembled from its public fields with an S2K specifier of a reserved, private
+            // or unassigned type (opaque octets, delimited by the packet's S2K length octet)
+            use pgp::packet::AeadProps;
+            use pgp::types::Tag;
+            let unknown: bytes::Bytes = { let n = t.range(0, 24); expand(t.u64(), n) }.into();
+            let s2k = match t.below(3) {
+                0 => StringToKey::Reserved { unknown: unknown.clone() },
+                1 => StringToKey::Private { typ: 100 + t.below(11) as u8, unknown: unknown.clone() },
+                _ => StringToKey::Other { typ: *t.pick(&[5u8, 9, 99, 111, 200, 255]), unknown: unknown.clone() },
+            };
+            let aead = match t.below(3) {
+                0 => AeadProps::Eax { iv: [0x41; 16] },
+                1 => AeadProps::Ocb { iv: [0x42; 15] },
+                _ => AeadProps::Gcm { iv: [0x43; 12] },
+            };
+            let ivl = match aead {
+                AeadProps::Eax { .. } => 16,
+                AeadProps::Ocb { .. } => 15,
+                AeadProps::Gcm { .. } => 12,
+            };
+            let encrypted_key: bytes::Bytes = expand(t.u64(), 16 + 16).into();
+            let len = 5 + s2k.write_len() + ivl + encrypted_key.len();
+            let what = format!("SymKeyEncryptedSessionKey::V6 from fields with {s2k:?}");
+            let p = SymKeyEncryptedSessionKey::V6 { packet_header: pgp::packet::PacketHeader::new_fixed(Tag::SymKeyEncryptedSessionKey, len as u32), sym_algorithm: SymmetricKeyAlgorithm::AES128, s2k, aead, encrypted_key };
+            (Packet::from(p), what)
+        }
         0 => {
             let name = { let n = *t.pick(&[0usize, 1, 8, 200, 255]); expand(t.u64(), n) };
             let n = *t.pick(&[0usize, 1, 100, 191, 192, 8383, 8384, 70_000]);
